@@ -4,6 +4,7 @@ import (
 	"fmt"
 	"go/token"
 	"go/types"
+	"strconv"
 	"strings"
 
 	"golang.org/x/tools/go/ssa"
@@ -583,15 +584,29 @@ func (c *fnCtx) progressObl(in ssa.Instruction, pos token.Pos) {
 		root.addOblAt(c, "progress", pos, "false", "payload of the added layer is shorter than the input (no layer / input found)")
 		return
 	}
-	// the layer value is an interface made from a *T whose LayerPayload() returns BaseLayer.Payload
-	mi, ok := root.lastAdded.(*ssa.MakeInterface)
-	if !ok {
-		root.addOblAt(c, "progress", pos, "false", "payload of the added layer is shorter than the input (layer of unknown type)")
-		return
+	// the layer value is an interface holding a *T (known statically, or by its constant dynamic type after
+	// inlining) whose LayerPayload() returns BaseLayer.Payload
+	var pt *types.Pointer
+	var ptrVal *Val
+	if mi, ok := root.lastAdded.(*ssa.MakeInterface); ok {
+		if p, ok := mi.X.Type().Underlying().(*types.Pointer); ok {
+			pt, ptrVal = p, c.val(mi.X)
+		}
 	}
-	pt, ok := mi.X.Type().Underlying().(*types.Pointer)
-	if !ok {
-		root.addOblAt(c, "progress", pos, "false", "payload of the added layer is shorter than the input (layer held by value)")
+	if pt == nil && root.lastAddedVal != nil && root.lastAddedVal.K == KIface {
+		if id, err := strconv.Atoi(root.lastAddedVal.T[0]); err == nil && id > 0 {
+			c.eng.idMu.Lock()
+			dt := c.eng.typeByID[id]
+			c.eng.idMu.Unlock()
+			if dt != nil {
+				if p, ok := dt.Underlying().(*types.Pointer); ok {
+					pt, ptrVal = p, &Val{K: KPtr, T: []string{root.lastAddedVal.T[1]}}
+				}
+			}
+		}
+	}
+	if pt == nil {
+		root.addOblAt(c, "progress", pos, "false", "payload of the added layer is shorter than the input (layer of unknown type)")
 		return
 	}
 	ev := &evalEnv{c: c, st: c.st, old: c.st, bound: map[string]tv{}, pkg: c.pkgOf(root.f)}
@@ -605,7 +620,7 @@ func (c *fnCtx) progressObl(in ssa.Instruction, pos token.Pos) {
 			}
 		}()
 		saved := c.st
-		pl := ev.selField(tv{v: c.val(mi.X), t: pt}, "Payload")
+		pl := ev.selField(tv{v: ptrVal, t: pt}, "Payload")
 		c.st = saved
 		if pl.v.K == KSlice {
 			plen = pl.v.T[2]
